@@ -53,7 +53,7 @@ Lemma scan_dec_cons c t acc : scan_dec (c :: t) acc =
   if (acc <? 128) && is_digit c then let '(n, v) := scan_dec t (acc * 10 + (c - 48)) in (1 + n, v) else (0, acc).
 Proof. reflexivity. Qed.
 Lemma scan_hex_cons c t acc : scan_hex (c :: t) acc =
-  if is_hex c then let '(n, v) := scan_hex t (wrap64 (acc * 16 + hex_val c)) in (1 + n, v) else (0, acc).
+  if (acc <? 65536) && is_hex c then let '(n, v) := scan_hex t (acc * 16 + hex_val c) in (1 + n, v) else (0, acc).
 Proof. reflexivity. Qed.
 Lemma scan_dec_bound l : forall acc n v, 0 <= acc -> scan_dec l acc = (n, v) -> 0 <= n /\ acc <= v.
 Proof.
@@ -79,15 +79,12 @@ Proof.
     + pair_inv H. lia.
 Qed.
 
-Lemma wrap64_small x : -9223372036854775808 <= x < 9223372036854775808 -> wrap64 x = x.
-Proof. intros H. unfold wrap64. rewrite Z.mod_small by lia. lia. Qed.
-
 Lemma scan_hex_bound l : forall acc n v, scan_hex l acc = (n, v) -> 0 <= n.
 Proof.
   induction l as [|c t IH]; intros acc n v H; [cbn [scan_hex] in H|rewrite scan_hex_cons in H].
   - pair_inv H. lia.
-  - destruct (is_hex c).
-    + destruct (scan_hex t (wrap64 (acc * 16 + hex_val c))) as [n1 v1] eqn:E1. pair_inv H.
+  - destruct ((acc <? 65536) && is_hex c).
+    + destruct (scan_hex t (acc * 16 + hex_val c)) as [n1 v1] eqn:E1. pair_inv H.
       apply IH in E1. lia.
     + pair_inv H. lia.
 Qed.
@@ -99,7 +96,7 @@ Lemma scan_hex_0 l acc v : scan_hex l acc = (0, v) -> v = acc.
 Proof.
   destruct l as [|c t]; [cbn [scan_hex]|rewrite scan_hex_cons]; intros H.
   - apply pair_equal_spec in H. destruct H as [_ H]. congruence.
-  - destruct (is_hex c).
+  - destruct ((acc <? 65536) && is_hex c).
     + destruct (scan_hex t _) as [n1 v1] eqn:E1. apply pair_equal_spec in H. destruct H as [H _].
       pose proof (scan_hex_bound _ _ _ _ E1). lia.
     + apply pair_equal_spec in H. destruct H as [_ H]. congruence.
@@ -109,8 +106,8 @@ Lemma scan_hex_1 l acc v : 0 <= acc < 1099511627776 -> scan_hex l acc = (1, v) -
 Proof.
   intros Ha. destruct l as [|c t]; [cbn [scan_hex]|rewrite scan_hex_cons]; intros H.
   - apply pair_equal_spec in H. destruct H as [H _]. lia.
-  - destruct (is_hex c) eqn:E.
-    + pose proof (hex_val_range c E) as Hh. rewrite wrap64_small in H by lia.
+  - destruct ((acc <? 65536) && is_hex c) eqn:E0.
+    + apply andb_true_iff in E0. destruct E0 as [_ E]. pose proof (hex_val_range c E) as Hh.
       destruct (scan_hex t _) as [n1 v1] eqn:E1. apply pair_equal_spec in H. destruct H as [H1 H2].
       assert (n1 = 0) by lia. subst n1. apply scan_hex_0 in E1. lia.
     + apply pair_equal_spec in H. destruct H as [H _]. lia.
@@ -120,8 +117,8 @@ Lemma scan_hex_2 l acc v : 0 <= acc < 4294967296 -> scan_hex l acc = (2, v) -> a
 Proof.
   intros Ha. destruct l as [|c t]; [cbn [scan_hex]|rewrite scan_hex_cons]; intros H.
   - apply pair_equal_spec in H. destruct H as [H _]. lia.
-  - destruct (is_hex c) eqn:E.
-    + pose proof (hex_val_range c E) as Hh. rewrite wrap64_small in H by lia.
+  - destruct ((acc <? 65536) && is_hex c) eqn:E0.
+    + apply andb_true_iff in E0. destruct E0 as [_ E]. pose proof (hex_val_range c E) as Hh.
       destruct (scan_hex t _) as [n1 v1] eqn:E1. apply pair_equal_spec in H. destruct H as [H1 H2].
       assert (n1 = 1) by lia. subst n1. apply scan_hex_1 in E1; lia.
     + apply pair_equal_spec in H. destruct H as [H _]. lia.
@@ -322,12 +319,4 @@ Proof.
   exists [], [], [38;35;120;38;35;120;52;49;59;59], [38;35;120;65;59].
   vm_compute. repeat split; try reflexivity; try discriminate.
   intros H. repeat (destruct H as [H|H]; [discriminate|]). exact H.
-Qed.
-
-(* 17 hex digits wrap around in Go's int: `&#x10000000000000041;` becomes `A` *)
-Lemma entities_hex_overflow_refuted_proof :
-  exists b, replace_entities [] [] b = Ok [65] /\ html_decode b = b.
-Proof.
-  exists [38;35;120;49;48;48;48;48;48;48;48;48;48;48;48;48;48;48;48;52;49;59].
-  vm_compute. split; reflexivity.
 Qed.
